@@ -544,6 +544,10 @@ func (l *ledGen) observe(full bool) {
 	}
 	if full {
 		l.op("q-pend", "pend")
+		if l.g.Prop == "C09" { // raw dumps of the pending stores
+			l.op("q-pins", "pins")
+			l.op("q-pcred", "pcred")
+		}
 	}
 }
 
